@@ -365,24 +365,33 @@ theorem param_other_keys_untouched (skip : Bool) (p : Param) (st : Store) (k : K
 /-- **defaults appear with that default and nothing else changes (model = spec, partial).**  Full statement: for an
 accepted parameter the request afterwards is the spec's — unchanged if the parameter is present or has no default, else
 its key holds the default in the serialisation the parameter's own decoder reads.  It fails for an absent parameter
-that is described by `content` (`ContentParamDefault`, F-C13-9, witness below); outside that class it holds. -/
+that is described by `content` (`ContentParamDefault`, F-C13-9) and for an empty array default that is written as an
+empty value (`EmptyArrayWritten`, F-C13-10) — witnesses below; outside these two classes it holds. -/
 theorem param_step_eq_spec_partial (skip : Bool) (p : Param) (st : Store)
-    (hx : ContentParamDefault skip p st = false)
+    (hx : ContentParamDefault skip p st = false) (hx2 : EmptyArrayWritten skip p st = false)
     (hok : (paramStep skip p st).2 = true) : (paramStep skip p st).1 = specStep skip p st := by
   unfold paramStep at hok ⊢
   rw [stepWith_fst]
   unfold specStep
   cases ha : applied skip p (st.get p.key) with
   | some d =>
-    obtain ⟨h1, h2, h3, _⟩ := applied_some_absent skip p _ d ha
+    obtain ⟨h1, h2, h3, h4⟩ := applied_some_absent skip p _ d ha
     subst h2
     simp only [Bool.false_eq_true, ↓reduceIte, h3]
+    have hd : d ≠ .list [] ∨ encodeDefault p d = [] := by
+      by_cases e : d = .list []
+      · right
+        subst e
+        unfold EmptyArrayWritten at hx2
+        rw [h1, h3, h4] at hx2
+        simpa using hx2
+      · exact Or.inl e
     by_cases hpath : p.loc = .path
-    · have e2 : specEncode p d = [] := by rw [← encodeDefault_eq_spec]; exact encodeDefault_path p d hpath
+    · have e2 := specEncode_path p d hpath
       simp only [writeDefault, encodeDefault_path p d hpath]
       cases st.get p.key <;> simp [e2]
     · rw [decode_nil_false_absent p _ hpath h1]
-      simp only [writeDefault, encodeDefault_eq_spec]
+      simp only [writeDefault, encodeDefault_eq_spec p d hd]
   | none =>
     simp only
     cases hs : skip with
@@ -397,8 +406,7 @@ theorem param_step_eq_spec_partial (skip : Bool) (p : Param) (st : Store)
         | some d =>
           subst hs
           by_cases hpath : p.loc = .path
-          · have e2 : specEncode p d = [] := by rw [← encodeDefault_eq_spec]; exact encodeDefault_path p d hpath
-            simp [e2]
+          · simp [specEncode_path p d hpath]
           · exfalso
             cases hc : p.content with
             | true => simp [ContentParamDefault, hc, hdf, hg, hpath] at hx
@@ -564,12 +572,13 @@ theorem params_n_validations_accept_partial (skip multi : Bool) (ps : List Param
 
 /-- **All parameters: forwarded request = spec (partial).**  The parameters of an accepted request are exactly the
 spec's — every absent parameter with a default carries it, nothing else changed — provided no parameter is in the
-class `ContentParamDefault`. -/
+classes `ContentParamDefault`, `EmptyArrayWritten`. -/
 theorem params_eq_spec_partial (skip multi : Bool) : ∀ (ps : List Param) (st : Store),
     keysDistinct ps = true → (∀ p ∈ ps, ContentParamDefault skip p st = false) →
+    (∀ p ∈ ps, EmptyArrayWritten skip p st = false) →
     (paramsPhase skip multi ps st).2 = true → (paramsPhase skip multi ps st).1 = specParams skip ps st
-  | [], st, _, _, _ => rfl
-  | p :: ps, st, hk, hx, hok => by
+  | [], st, _, _, _, _ => rfl
+  | p :: ps, st, hk, hx, hy, hok => by
     simp only [keysDistinct, Bool.and_eq_true, List.all_eq_true, bne_iff_ne, ne_eq] at hk
     obtain ⟨ok1, ok2, e⟩ := paramsPhase_ok_cons skip multi p ps st hok
     have hx' : ∀ q ∈ ps, ContentParamDefault skip q (paramStep skip p st).1 = false := by
@@ -577,8 +586,12 @@ theorem params_eq_spec_partial (skip multi : Bool) : ∀ (ps : List Param) (st :
       have := hx q (by simp [hq])
       unfold ContentParamDefault at this ⊢
       rw [paramStep_other skip p st q.key (hk.1 q hq)]; exact this
-    rw [e, params_eq_spec_partial skip multi ps _ hk.2 hx' ok2,
-      param_step_eq_spec_partial skip p st (hx p (by simp)) ok1]
+    have hy' : ∀ q ∈ ps, EmptyArrayWritten skip q (paramStep skip p st).1 = false := by
+      intro q hq
+      rw [emptyArrayWritten_congr skip q _ st (paramStep_other skip p st q.key (hk.1 q hq))]
+      exact hy q (by simp [hq])
+    rw [e, params_eq_spec_partial skip multi ps _ hk.2 hx' hy' ok2,
+      param_step_eq_spec_partial skip p st (hx p (by simp)) (hy p (by simp)) ok1]
     rfl
 
 /-- **The query cache is harmless.**  ValidateRequest decodes query parameters from `input.QueryParams` and writes
@@ -613,6 +626,15 @@ theorem witness_empty_array_default_reads_as_empty :
     DefaultReadsAsEmpty false e [] = true ∧
     paramStep false e [] = ([((.query, "e"), [.empty])], true) ∧
     paramStep false e (paramStep false e []).1 = ([((.query, "e"), [.empty])], false) := by decide
+
+/-- F-C13-10 (new, open): the same empty array default, seen against the spec: `e=` is written where the serialisation
+    of an array without members is nothing (with `explode` nothing is written: model = spec there) -/
+theorem witness_empty_array_written :
+    let e : Param := { name := "e", loc := .query, ty := .array .integer, dflt := some (.list []), required := false, allowEmpty := true, explode := false }
+    EmptyArrayWritten false e [] = true ∧ (paramStep false e []).1 = [((.query, "e"), [.empty])] ∧ specStep false e [] = [] ∧
+    EmptyArrayWritten false { e with explode := true } [] = false ∧
+    (paramStep false { e with explode := true } []).1 = specStep false { e with explode := true } [] ∧
+    EmptyArrayWritten false { e with loc := .header, name := "X-E" } [] = true := by decide
 
 /-- regression (F-C13-3, repaired): `?q=` with `q: integer, default 7` — nothing is appended any more -/
 theorem regression_empty_present :
@@ -704,15 +726,16 @@ theorem visited_keysDistinct (exq : Bool) (pp op : List Param) (h1 : keysDistinc
 
 /-- **The forwarded parameters of a whole request = spec, and a second validation changes nothing** — for path-item and
 operation parameters together, overrides and excluded query parameters included (model = spec outside
-`ContentParamDefault`; idempotence at full strength). -/
+`ContentParamDefault` and `EmptyArrayWritten`; idempotence at full strength). -/
 theorem request_params_eq_spec_and_idempotent (skip multi exq : Bool) (pp op : List Param) (st : Store)
     (h1 : keysDistinct pp = true) (h2 : keysDistinct op = true)
     (hx : ∀ p ∈ visited exq pp op, ContentParamDefault skip p st = false)
+    (hy : ∀ p ∈ visited exq pp op, EmptyArrayWritten skip p st = false)
     (hok : (paramsPhase skip multi (visited exq pp op) st).2 = true) :
     (paramsPhase skip multi (visited exq pp op) st).1 = specParams skip (visited exq pp op) st ∧
     (paramsPhase skip multi (visited exq pp op) (paramsPhase skip multi (visited exq pp op) st).1).1 =
       (paramsPhase skip multi (visited exq pp op) st).1 :=
-  ⟨params_eq_spec_partial skip multi _ st (visited_keysDistinct exq pp op h1 h2) hx hok,
+  ⟨params_eq_spec_partial skip multi _ st (visited_keysDistinct exq pp op h1 h2) hx hy hok,
    params_idempotent skip multi _ st (visited_keysDistinct exq pp op h1 h2) hok⟩
 
 /-- With ExcludeRequestQueryParams no query parameter of the request is touched. -/
